@@ -994,7 +994,7 @@ def compile_comprehension(compiler, expr, root, parts, final):
                         v[1],
                         target=v[0],
                         iter=v[1].force_expr,
-                        body=f(parts).stmts,
+                        body=f(parts).stmts or [asty.Pass(expr)],
                         orelse=orelse,
                     )
                 elif tagname == "setv":
@@ -1583,7 +1583,7 @@ def compile_try_expression(compiler, expr, root, body, catchers, orelse, finalbo
     else:
         finalbody = compiler._compile_branch(finalbody)
         finalbody += finalbody.expr_as_stmt()
-        finalbody = finalbody.stmts
+        finalbody = finalbody.stmts or [asty.Pass(expr)]
 
     # We don't give the Result any temp_variables: `Result.rename` would
     # make an enclosing `setv` assign to its target before the whole form
